@@ -121,8 +121,9 @@ def compare(res, g, t, prog, k, prefix=""):
     got = set(t.arg_types)
     if named - got - (named - set(g["args"])):
         out.append(("argument-missing", f"{g['qual']}: logged args {sorted(got)}, named parameters {sorted(named)}"))
-    if got - named - extras:
-        out.append(("argument-extra", f"{g['qual']}: logged args {sorted(got)} include non-parameters"))
+    if got - named:
+        what = "*args/**kwargs" if (got - named) <= extras else "non-parameters"
+        out.append(("argument-extra", f"{g['qual']}: logged args {sorted(got)} include {what} (named parameters: {sorted(named)})"))
     for n in sorted(named & got & set(g["args"])):
         if RT.to_rt(t.arg_types[n]) != g["args"][n]:
             out.append(("argument-type-differs", f"{g['qual']}({n}): logged {RT.show(RT.to_rt(t.arg_types[n]))}, value bound at call start had {RT.show(g['args'][n])}"))
